@@ -5,6 +5,7 @@ import (
 	"fmt"
 	"io"
 	"os"
+	"strconv"
 	"strings"
 	"time"
 
@@ -104,6 +105,19 @@ func canonOne(sb *strings.Builder, m *regexp2.Match) {
 		}
 		// the group's own (last) capture
 		fmt.Fprintf(sb, "=%d,%d;", g.RuneIndex, g.RuneLength)
+		// the same group through the lookups (by name; by number when the name is one)
+		if bn := m.GroupByName(g.Name); bn == nil {
+			sb.WriteString("!noname;")
+		} else if bn.RuneIndex != g.RuneIndex || bn.RuneLength != g.RuneLength || len(bn.Captures) != len(g.Captures) {
+			fmt.Fprintf(sb, "!byname=%d,%d,%d;", bn.RuneIndex, bn.RuneLength, len(bn.Captures))
+		}
+		if n, err := strconv.Atoi(g.Name); err == nil {
+			if bn := m.GroupByNumber(n); bn == nil {
+				sb.WriteString("!nonum;")
+			} else if bn.RuneIndex != g.RuneIndex || bn.RuneLength != g.RuneLength || bn.Name != g.Name {
+				fmt.Fprintf(sb, "!bynum=%d,%d,%s;", bn.RuneIndex, bn.RuneLength, bn.Name)
+			}
+		}
 	}
 	fmt.Fprintf(sb, "#%d", m.GroupCount())
 }
